@@ -22,6 +22,8 @@ const (
 var (
 	AllowedAssets       = []string{"btc", "lbtc"}
 	ErrSwapDoesNotExist = errors.New("swap does not exist")
+	// a payload that decodes to no message at all (the json document null)
+	errEmptyMessage = errors.New("received an empty message")
 )
 
 type ErrMinimumSwapSize uint64
@@ -202,6 +204,9 @@ func (s *SwapService) OnMessageReceived(peerId string, msgTypeString string, pay
 		if err != nil {
 			return err
 		}
+		if msg == nil {
+			return errEmptyMessage
+		}
 		s.logMsg(msg.SwapId.String(), peerId, msgTypeString, payload)
 		err = s.OnSwapOutRequestReceived(msg.SwapId, peerId, msg)
 		if err != nil {
@@ -212,6 +217,9 @@ func (s *SwapService) OnMessageReceived(peerId string, msgTypeString string, pay
 		err := json.Unmarshal(msgBytes, &msg)
 		if err != nil {
 			return err
+		}
+		if msg == nil {
+			return errEmptyMessage
 		}
 		s.logMsg(msg.SwapId.String(), peerId, msgTypeString, payload)
 		// Check if sender is expected swap partner peer.
@@ -233,6 +241,9 @@ func (s *SwapService) OnMessageReceived(peerId string, msgTypeString string, pay
 		if err != nil {
 			return err
 		}
+		if msg == nil {
+			return errEmptyMessage
+		}
 		s.logMsg(msg.SwapId.String(), peerId, msgTypeString, payload)
 		// Check if sender is expected swap partner peer.
 		ok, err := s.isMessageSenderExpectedPeer(peerId, msg.SwapId)
@@ -252,6 +263,9 @@ func (s *SwapService) OnMessageReceived(peerId string, msgTypeString string, pay
 		err := json.Unmarshal(msgBytes, &msg)
 		if err != nil {
 			return err
+		}
+		if msg == nil {
+			return errEmptyMessage
 		}
 		s.logMsg(msg.SwapId.String(), peerId, msgTypeString, payload)
 		// Check if sender is expected swap partner peer.
@@ -273,6 +287,9 @@ func (s *SwapService) OnMessageReceived(peerId string, msgTypeString string, pay
 		if err != nil {
 			return err
 		}
+		if msg == nil {
+			return errEmptyMessage
+		}
 		s.logMsg(msg.SwapId.String(), peerId, msgTypeString, payload)
 		err = s.OnSwapInRequestReceived(msg.SwapId, peerId, msg)
 		if err != nil {
@@ -283,6 +300,9 @@ func (s *SwapService) OnMessageReceived(peerId string, msgTypeString string, pay
 		err := json.Unmarshal(msgBytes, &msg)
 		if err != nil {
 			return err
+		}
+		if msg == nil {
+			return errEmptyMessage
 		}
 		s.logMsg(msg.SwapId.String(), peerId, msgTypeString, payload)
 		// Check if sender is expected swap partner peer.
@@ -303,6 +323,9 @@ func (s *SwapService) OnMessageReceived(peerId string, msgTypeString string, pay
 		err := json.Unmarshal(msgBytes, &msg)
 		if err != nil {
 			return err
+		}
+		if msg == nil {
+			return errEmptyMessage
 		}
 		s.logMsg(msg.SwapId.String(), peerId, msgTypeString, payload)
 		// Check if sender is expected swap partner peer.
